@@ -950,3 +950,6 @@ func PanickingComparator() (cases int, fail string) {
 	}
 	return cases, ""
 }
+
+// ModelKey is the layout-independent state key (see seqmc.ModelKeyer).
+func (h *H[T]) ModelKey() string { return fmt.Sprint(h.model) }
